@@ -215,5 +215,48 @@ UNITS += [
 """),
 ]
 
+UNITS += [
+    Unit(name="packsizer_add_size", file=PK, anchor="pub fn add_size(&mut self, added: u32)", wrap_open="impl PackSizer {", wrap_close="}",
+         functions=["blob::packer::PackSizer::add_size"],
+         contract="""
+    requires
+        old(self).current_size + added <= u64::MAX,   // total repository size: plain u64 counter
+    ensures
+        /*@add_size*/ final(self).current_size == old(self).current_size + added,
+        final(self).default_size == old(self).default_size && final(self).grow_factor == old(self).grow_factor && final(self).size_limit == old(self).size_limit,
+"""),
+    Unit(name="cfg_packsize", file=CF, anchor="pub fn packsize(&self, blob: BlobType) -> (u32, u32, u32)", ret_name="r",
+         wrap_open="impl ConfigFile {", wrap_close="}",
+         functions=["repofile::configfile::ConfigFile::packsize"],
+         contract="""
+    ensures
+        /*@packsize_defaults*/ blob is Tree ==> r.0 == (match self.treepack_size { Some(x) => x, None => (4 * 1024 * 1024) as u32 })
+              && r.1 == (match self.treepack_growfactor { Some(x) => x, None => 32u32 }) && r.2 == (match self.treepack_size_limit { Some(x) => x, None => u32::MAX }),
+        blob is Data ==> r.0 == (match self.datapack_size { Some(x) => x, None => (32 * 1024 * 1024) as u32 })
+              && r.1 == (match self.datapack_growfactor { Some(x) => x, None => 32u32 }) && r.2 == (match self.datapack_size_limit { Some(x) => x, None => u32::MAX }),
+"""),
+    Unit(name="cfg_packsize_ok_percents", file=CF, anchor="pub fn packsize_ok_percents(&self) -> (u32, u32)", ret_name="r",
+         wrap_open="impl ConfigFile {", wrap_close="}",
+         functions=["repofile::configfile::ConfigFile::packsize_ok_percents"],
+         contract="""
+    ensures
+        /*@percent_defaults*/ r.0 == (match self.min_packsize_tolerate_percent { Some(x) => x, None => 30u32 }),
+        r.1 == (match self.max_packsize_tolerate_percent { None => u32::MAX, Some(x) => if x == 0 { u32::MAX } else { x } }),
+"""),
+    Unit(name="packsizer_from_config", file=PK, anchor="pub fn from_config(config: &ConfigFile, blob_type: BlobType, current_size: u64) -> Self", ret_name="r",
+         wrap_open="impl PackSizer {", wrap_close="}",
+         functions=["blob::packer::PackSizer::from_config"],
+         contract="""
+    ensures
+        /*@sizer_from_config*/ r.current_size == current_size,
+        blob_type is Data ==> r.default_size == (match config.datapack_size { Some(x) => x, None => (32 * 1024 * 1024) as u32 }) && r.grow_factor == (match config.datapack_growfactor { Some(x) => x, None => 32u32 }),
+        blob_type is Tree ==> r.default_size == (match config.treepack_size { Some(x) => x, None => (4 * 1024 * 1024) as u32 }) && r.grow_factor == (match config.treepack_growfactor { Some(x) => x, None => 32u32 }),
+"""),
+]
+
 KANI = []
-META = {"not_covered": []}
+META = {"not_covered": [
+    "the end-to-end statement 'backup, check and restore succeed on every accepted configuration' (composition)",
+    "init (ConfigFile::new + apply + key creation), save_config / save_config_hot, zstd level semantics",
+    "prune options other than the limit arithmetic (keep-pack/keep-delete spans: jiff)",
+]}
